@@ -65,8 +65,13 @@ let diag_str (d : CtxModel.diag) =
 let regions_str (l : ((BinNums.coq_N * BinNums.coq_N) * BinNums.coq_N list) list) =
   if l = [] then "-" else Stdlib.String.concat "," (Stdlib.List.map (fun ((f, _), d) -> hex_of_n f ^ ":" ^ hex_of_bytes d) l)
 
+(* fuel of the model's include recursion: more than the number of files of the project suffices (C06_no_out_of_fuel) *)
+let include_fuel = ref CtxModel.include_fuel
+let rec nat_of_int_ (n : int) : Datatypes.nat = if n <= 0 then Datatypes.O else Datatypes.S (nat_of_int_ (n - 1))
+let set_fuel (nfiles : int) = include_fuel := nat_of_int_ (Stdlib.max 64 (nfiles + 2))
+
 let model_text dbg fs root text =
-  match CtxModel.pipeline_gen dbg fs CtxModel.include_fuel root text with
+  match CtxModel.pipeline_gen dbg fs !include_fuel root text with
   | CtxModel.PPanic _ -> "status=panic regions=- diags=-"
   | CtxModel.POutOfFuel -> "status=outoffuel regions=- diags=-"
   | CtxModel.Done (s, diags, regions) ->
@@ -224,6 +229,7 @@ let () = run (fun case impl ->
   let dbg = (field impl "dbg=" = "1") in
   count ("stream." ^ stream); note_nontrivial case;
   (* (a) model *)
+  set_fuel (Stdlib.List.length files);
   let m = model_text dbg fs (bytes_of_str !root) root_text in
   let impl_obs = Printf.sprintf "status=%s regions=%s diags=%s" (field impl "status=") (field impl "regions=") (field impl "diags=") in
   count ("status." ^ field impl "status=");
